@@ -67,5 +67,16 @@ func (s *Snapshot) IterationsStarted() uint64 {
 }
 
 func (s *Snapshot) FailedIterationsRate() uint64 {
-	return s.FailedIterationDurations.Count * 100 / s.Iterations()
+	iterations := s.Iterations()
+	if iterations == 0 {
+		return 0
+	}
+
+	return s.FailedIterationDurations.Count * 100 / iterations
+}
+
+// FailedIterationsRateExceeds reports whether the failed share of all iterations
+// is strictly greater than the given percentage.
+func (s *Snapshot) FailedIterationsRateExceeds(percent uint64) bool {
+	return s.FailedIterationDurations.Count*100 > percent*s.Iterations()
 }
